@@ -172,6 +172,8 @@ inductive Ev
   | fxReply (k v : Nat) (ok : Bool)   -- the callback replied on port `k` (`ok`: it held the port)
   | fxForget (k : Nat) (ok : Bool)
   | callRet (k : Nat) (r : CallRes)   -- what the caller of call `k` (addressed to this actor) sees
+  | callSent (k : Nat) (ok : Bool)    -- the request of call `k` was sent: `ok` = accepted into the mailbox
+  | polled                            -- the loop task was polled once (end of a `poll` op)
   | waitRet (w : Nat) (ready : Bool)  -- a `wait()` on this actor was polled
   | snap (s : Snap)                -- observable state after the op
   deriving DecidableEq, Repr, Inhabited
@@ -578,7 +580,8 @@ def Actor.envOp (a : Actor) : AOp → M
   | .treeTaken => opTreeTaken a
   | .kidAdd c => ({ a with kids := a.kids.map (fun l => if l.contains c then l else l ++ [c]) }, [])
   | .kidDel c => ({ a with kids := a.kids.map (fun l => l.filter (· != c)) }, [])
-  | .call k => ((apiCall a k).1, [.ev (.callRet k (if (apiCall a k).2 then .pending else .sendErr))])
+  | .call k => ((apiCall a k).1, [.ev (.callSent k (apiCall a k).2),
+                                  .ev (.callRet k (if (apiCall a k).2 then .pending else .sendErr))])
   | .pollCall k =>
     match fateOf a.calls k with
     | some (.replied v) => ({ a with calls := a.calls.filter (·.1 != k) }, [.ev (.callRet k (.success v))])
@@ -588,11 +591,15 @@ def Actor.envOp (a : Actor) : AOp → M
   | .pollWait w => (a, [.ev (.waitRet w (a.status = .stopped))])
   | _ => (a, [])
 
+/-- The end of a poll of the live loop task is a trace event (`polled`): C02 judges at that moment
+that a loop left idle has an empty mailbox. -/
+def pollMark (a : Actor) (x : M) : M := if a.phase.isTask then (x.1, x.2 ++ [.ev .polled]) else x
+
 def Actor.stepCore (a : Actor) : AOp → M
   | .spawn sup name nameFree isLocal supOk => opSpawn a sup name nameFree isLocal supOk
   | .pollSpawn supOk => opPollSpawn a supOk
   | .dropSpawn => opDropSpawn a
-  | .poll => opPoll a
+  | .poll => pollMark a (opPoll a)
   | .abort => opAbort a
   | .resume s => opResume a s
   | op => if a.phase = .fresh then (a, [.note "nocell"]) else a.envOp op   -- no cell, nothing to call
@@ -623,9 +630,10 @@ def trace (id : Nat) (ops : List AOp) : List Ev := ((Actor.init id).run ops).2
 
 def Ev.isSnap : Ev → Bool
   | .snap _ => true
+  | .polled => true      -- the end-of-poll mark is bookkeeping like the snapshots
   | _ => false
 
-/-- The trace without the per-op observable snapshots (for readable examples). -/
+/-- The trace without the per-op snapshots and end-of-poll marks (for readable examples). -/
 def traceNoSnap (id : Nat) (ops : List AOp) : List Ev := (trace id ops).filter (fun e => !e.isSnap)
 
 /-! ### World: several actors, effects routed through `Actor.step` -/
@@ -990,6 +998,71 @@ def next (me : Nat) (s : St) : Ev → Except String St
 def ok (me : Nat) (tr : List Ev) : Bool := (accepts (next me) {} tr).isOk
 
 end C04
+
+namespace C02
+
+/-- user messages as the handler sees them -/
+def userItems : List Item → List Arg
+  | [] => []
+  | .msg m :: l => .msg m :: userItems l
+  | .call k :: l => .call k :: userItems l
+  | .drain :: l => userItems l
+
+structure St where
+  /-- accepted and not yet handled, in the order the sends completed -/
+  queue : List Arg := []
+  /-- the loop is listening: the last callback event was `exit post_start|handle|sup ok` -/
+  idle : Bool := false
+  entered : Bool := false   -- `pre_start` was entered
+  over : Bool := false      -- the actor's task / spawn ended
+  deriving DecidableEq, Repr, Inhabited
+
+/-- C02 at the level `Life` observes (one mailbox, API-level sends):
+* `enter handle x` only for the *oldest* accepted, not yet handled message `x` — so every handled
+  message was accepted (a refused send is never handled), none is handled twice, none is skipped,
+  and the handling order is the order in which the sends completed (FIFO per mailbox);
+* when a poll leaves the loop listening (`polled` while idle) no accepted message is outstanding:
+  an accepted message that the loop took out of the mailbox was handed to `handle`;
+* nothing is handled after the actor's task ended. -/
+def next (s : St) : Ev → Except String St
+  | .sendRet _ m true => .ok { s with queue := s.queue ++ [.msg m] }
+  | .callSent k true => .ok { s with queue := s.queue ++ [.call k] }
+  | .enter cb arg =>
+    match cb with
+    | .handle =>
+      if s.over then .error "c02.handled-after-exit"
+      else match s.queue with
+        | x :: q => if x = arg then .ok { s with queue := q, idle := false } else .error "c02.order"
+        | [] => .error "c02.handled-not-accepted"
+    | cb => .ok { s with idle := false, entered := s.entered || cb == .preStart }
+  | .exit cb r => .ok { s with idle := decide (r = .ok) && (cb == .postStart || cb == .handle || cb == .sup) }
+  | .cancelled _ => .ok { s with idle := false }
+  | .aborted => .ok { s with idle := false }
+  | .join _ => .ok { s with idle := false, over := true }
+  | .dropped => .ok { s with idle := false, over := true }
+  | .spawnRet r =>
+    match r with
+    | .ok => .ok s
+    | .registered => .ok s
+    | _ => .ok { s with idle := false, over := s.over || s.entered }
+  | .polled => if s.idle && !s.queue.isEmpty then .error "c02.accepted-not-handled" else .ok s
+  | _ => .ok s
+
+def ok (tr : List Ev) : Bool := (accepts next {} tr).isOk
+
+/-- Messages handled / accepted along a trace, in order. -/
+def handled : List Ev → List Arg
+  | [] => []
+  | .enter .handle x :: l => x :: handled l
+  | _ :: l => handled l
+
+def accepted : List Ev → List Arg
+  | [] => []
+  | .sendRet _ m true :: l => .msg m :: accepted l
+  | .callSent k true :: l => .call k :: accepted l
+  | _ :: l => accepted l
+
+end C02
 
 namespace Residue
 
